@@ -1,10 +1,14 @@
 //! Module implementing parsing for BIP-0032 HD paths used for key derivation.
 
-use anyhow::{Context as _, Result};
+use anyhow::{ensure, Context as _, Result};
 use std::{
     fmt::{self, Display, Formatter},
     str::FromStr,
 };
+
+/// The first index that is reserved for hardened keys. Path components must be
+/// strictly less than this value.
+const HARDENED_OFFSET: u32 = 0x8000_0000;
 
 /// A parsed hierarchical derivation path.
 #[derive(Debug)]
@@ -80,6 +84,10 @@ impl FromStr for Component {
         let value = value
             .parse()
             .with_context(|| format!("invalid BIP-0032 path component '{s}'"))?;
+        ensure!(
+            value < HARDENED_OFFSET,
+            "BIP-0032 path component '{s}' must be less than 2^31",
+        );
 
         Ok(if hardened {
             Component::Hardened(value)
